@@ -123,7 +123,9 @@ def rule_helpers(rep: Report, repo: Repo):
     if len(ev) != 1:
         raise AnalysisError(R, "_unpack_blocks.op_eval not found")
     rr = [n for n in ast.walk(ev[0]) if isinstance(n, ast.Return) and n.value is not None and norm(n.value) != "zero"]
-    texts = [rtext(n.value, env_at(n, ev[0])) for n in rr]
+    from .sem import kwcalls
+    msc = Scope(repo.trees[MOD], None)
+    texts = [norm(kwcalls(resolved(n.value, env_at(n, ev[0])), msc)) for n in rr]
     ok = texts == ["_convert_if_zero(_convert_if_zero(operator[index[2:]], atol=atol)[index[0]][index[1]], atol=atol)"]
     rep.check(ok, R, f"{MOD}::_unpack_blocks block (i, j) of a nested-list term is term[i][j]", str(texts), loc(ev[0]))
     shp = [n for n in ast.walk(f) if isinstance(n, ast.Call) and call_name(n) == "BlockSeries"]
@@ -131,11 +133,13 @@ def rule_helpers(rep: Report, repo: Repo):
     if len(shp) == 1:
         sh = {k.arg: k.value for k in shp[0].keywords}.get("shape")
         if sh is not None:
-            t = rtext(sh, env_at(shp[0], f))
             zo = [n for n in ast.walk(f) if isinstance(n, ast.NamedExpr) and norm(n.value) == "operator[(0,) * operator.n_infinite]"]
-            Z = [zo[0].target.id] if zo else []
-            Z.append("operator[(0,) * operator.n_infinite]")
-            ok = any(t in (f"2 * (len({z}),)", f"(len({z}),) * 2", f"(len({z}), len({z}))") for z in Z)
+            env_s = env_at(shp[0], f)
+            if zo:
+                env_s[zo[0].target.id] = zo[0].value
+            t = rtext(sh, env_s)
+            z = "operator[(0,) * operator.n_infinite]"
+            ok = t in (f"2 * (len({z}),)", f"(len({z}),) * 2", f"(len({z}), len({z}))")
     rep.check(ok, R, f"{MOD}::_unpack_blocks the block grid is N x N with N = number of block rows of H_0", "", loc(f))
 
     # -- _extract_diagonal: one energy array per diagonal block, in block order ------------------------------------------
